@@ -365,6 +365,8 @@ def c01(ctx):
     # the surrogate trees run under all four option records: their strict runs belong to C01 (an unpaired
     # surrogate escape is rejected in strict mode), the harness attributes lenient runs to C12
     files = parser_trees(ctx, STRICT_TREES + SURR_TREES) + byte_trees(ctx) + parser_graph(ctx)
+    # long inputs (hundreds of kilobytes) of multi-byte characters straddling the 64 KiB marks, through the slice entry point
+    files.append(nest_families(ctx, 'StraddleFamilies')['out'])
     ctx.replay(files, ['C01.'])
     parser_trace(ctx, ['C01.'])
     sweeps(ctx, ['raw_str', 'raw_key', 'esc_ascii', 'esc_u', 'esc_pair', 'esc_pair2', 'esc_hexchar', 'ctx'], 'C01.sweep',
@@ -410,10 +412,10 @@ def c12(ctx):
            'outcome of an escape / escape pair under the lenient options differs from the specification (run-compressed exhaustive sweep)')
 
 
-def nest_families(ctx):
+def nest_families(ctx, families='AllAndLength'):
     depths = '{1000, 100000}' if ctx.quick else '{1000, 100000, 1000000, 2000000}'
-    consts = {'Families': 'AllAndLength', 'Depths': depths}
-    return ctx.mc(f'nest_{ctx.tier}', 'MC_Nest', consts, {'NMax': 9}, ['Affine', 'Dump'], spec='NSpec', workers=4)
+    consts = {'Families': families, 'Depths': depths}
+    return ctx.mc(f'nest_{families}_{ctx.tier}', 'MC_Nest', consts, {'NMax': 9}, ['Affine', 'Dump'], spec='NSpec', workers=4)
 
 
 def c03(ctx):
